@@ -199,7 +199,7 @@ fn str_bytes_eq(v: &Value, want: &[u8]) -> bool {
 
 fn check_len<const N: usize>() {
     let b = any_str::<N>();
-    let v = mk_string::<N>(&b, kani::any());
+    let v = mk_string::<N>(&b, false);
     assert!(v.len() == Some(nchars_le3(b, N)));
     std::mem::forget(v);
 }
